@@ -1823,8 +1823,12 @@ public:
       // Evaluate binary expression.
       int result;
       switch (expr.getOp()) {
-        case Token::PLUS:  result = LHS->getValue() +  RHS->getValue(); break;
-        case Token::MINUS: result = LHS->getValue() -  RHS->getValue(); break;
+        // Add and subtract as unsigned values so that results wrap around at
+        // 32 bits, as they do at run time (signed overflow is undefined).
+        case Token::PLUS:  result = static_cast<int>(static_cast<unsigned>(LHS->getValue()) +
+                                                     static_cast<unsigned>(RHS->getValue())); break;
+        case Token::MINUS: result = static_cast<int>(static_cast<unsigned>(LHS->getValue()) -
+                                                     static_cast<unsigned>(RHS->getValue())); break;
         case Token::EQ:    result = LHS->getValue() == RHS->getValue(); break;
         case Token::NE:    result = LHS->getValue() != RHS->getValue(); break;
         case Token::LS:    result = LHS->getValue() <  RHS->getValue(); break;
@@ -1845,7 +1849,7 @@ public:
       // Evaluate unary expression.
       int result;
       switch (expr.getOp()) {
-        case Token::MINUS: result = -element->getValue(); break;
+        case Token::MINUS: result = static_cast<int>(0U - static_cast<unsigned>(element->getValue())); break;
         case Token::NOT:   result = element->getValue() == 0 ? 1 : 0; break;
         default:
           throw SemanticTokenError(expr.getLocation(), "unexpected unary op", expr.getOp());
